@@ -31,9 +31,9 @@ def obligations(tier):
            module=H, func='t2_locks', timeout=900, shards=4),
         Ob('T3', 'E', 'slot discipline: in-flight <= N, all slots returned after success and after a failing call', '3 N x 5 M x 4 op mixes x 6 failing positions x 6 latency patterns = 2160',
            [F['as'], F['ex']], module=H, func='t3_slots', timeout=900, shards=4),
-        Ob('T4r', 'E', 'restore under download completion orders/latencies and concurrency 1/2/4 equals the sequential result; in-flight <= N; slots restored',
-           '3 concurrency x 6 latency patterns x 5 file sets x encrypted/not = 180', [F['dc'], 'replicat.repository:Repository.restore', 'replicat.repository:Repository._acquire_slot_threadsafe'],
-           module=H, func='t4_restore', timeout=600),
+        Ob('T4r', 'E', 'restore under download completion orders/latencies and concurrency 1/2/4 equals the sequential result; in-flight <= N; slots restored; a part write failing in its writer thread (ENOSPC at write 1/3/6) is never reported as success with a damaged file',
+           '3 concurrency x 6 latency patterns x 5 file sets x encrypted/not x 4 (no fault / failing write #0, #2, #5) = 720', [F['dc'], 'replicat.repository:Repository.restore', 'replicat.repository:Repository._acquire_slot_threadsafe'],
+           module=H, func='t4_restore', timeout=600, shards=2),
         Ob('T5', 'E', 'snapshot under producer/worker interleavings and completion orders equals the sequential run; after a failed upload, an upload ending in CancelledError, or cancellation of the command by its caller: no hang, producer finished, slots back, no snapshot',
            '3 concurrency x 12 producer patterns x 6 file sets x 5 latency patterns x 4 outcomes (ok / backend error / CancelledError / caller cancels) = 4320', [F['sn'], F['wk'], F['cp']], module=H,
            func='t5_snapshot', timeout=1200, shards=8),
